@@ -356,7 +356,7 @@ def run_api(res, scratch, tier, seed, prop, owners):
         raise Infra("no behaviours printed by TLC\n" + t["tail"][-2000:])
     distinct = {json.dumps([(e["op"], e.get("d"), e.get("w"), e.get("which")) for e in h]) for h in behs}
     res.cov["distinct_nontrivial"] += len(distinct)
-    res.cov["rule"] = ("TLC simulates the API-history machine spec/Api.tla (%d slots, definition pool of 9 good/defective definitions (one with 170 terminals) by callbacks and by "
+    res.cov["rule"] = ("TLC simulates the API-history machine spec/Api.tla (%d slots, definition pool of 10 good/defective definitions (one with 170 terminals, one with a rule of 130 alternatives) by callbacks and by "
                        "description text, 11 inputs incl. undeclared codes inside a gap and outside the declared range, 4 allocator modes, all setters) and prints "
                        "behaviours of %d calls with the result every call must have given only the slot's own state; the harness executes them (plain and ASan "
                        "builds, two code assignments incl. code 0) comparing return code, error code/message, setter results, root/callbacks, allocator ledgers, "
@@ -748,15 +748,15 @@ def check_C17(res, scratch, tier, seed):
         ok_parses = [e for e in pre if e["op"] == "parse" and e["rcs"] == [0]]
         f = h[fi]
         return (sum(1 for e in ok_parses if e["one"] == 0 or e["cost"] == 1) * 3 + len(ok_parses) + sum(1 for e in pre if e["op"] == "define")
-                + (2 if len({e.get("s") for e in pre}) > 1 else 0) + (6 if f.get("d") == 9 else 0))      # the big definition has the most allocation points
+                + (2 if len({e.get("s") for e in pre}) > 1 else 0) + (6 if f.get("d") in (9, 10) else 0) + (3 if f.get("d") == 10 and f.get("text") else 0))      # the big definitions have the most allocation points
     uniq.sort(key=richness, reverse=True)
     maxscen = 80 if tier == "quick" else 500
     uniq = uniq[:maxscen]
     pool_lines, inputs = api_pool_lines(pools, codemap="gap")
     res.cov["rule"] = ("TLC simulates Api.tla with one allocation failure per behaviour (create, definition by callbacks or text, parse with caller's or default "
                        "allocator; a second object alive in many of them); for every distinct fault scenario the replay first counts the library's memory requests N "
-                       "of the faulted call and then re-executes the behaviour once per chosen k <= N with the k-th request failing (quick: first/last 10 and every "
-                       "n-th; thorough: every k): the call must return NULL / YAEP_NO_MEMORY (error_code too), nothing may crash (plain + ASan), the object must be "
+                       "of the faulted call and then re-executes the behaviour once per chosen k <= N with the k-th request failing (quick: first/last 10, every "
+                       "n-th, and the first and last request of every distinct allocation site by call stack; thorough: every k): the call must return NULL / YAEP_NO_MEMORY (error_code too), nothing may crash (plain + ASan), the object must be "
                        "freeable, and all later calls on the OTHER object must still return exactly what the specification says; "
                        "non-trivial = (scenario, k) pairs in which the failure was really injected")
     total_inj = 0
@@ -764,17 +764,20 @@ def check_C17(res, scratch, tier, seed):
         # pass 1: count requests
         blocks = [[("G s%d" % i)] + pool_lines + api_behaviour_block("s%d" % i, h, inputs, fault_k=10 ** 8)[1:] for i, h in enumerate(uniq)]
         recs, st = run_harness(os.path.join(bdir, "yv_api"), blocks)
-        allocs = {}
+        allocs, sitek = {}, {}
         for r in recs:
             if r.get("k") == "fault":
                 allocs[r["g"]] = r["allocs"]
+                sitek[r["g"]] = r.get("sitek", [])
         blocks2 = []
         for i, h in enumerate(uniq):
             n = allocs.get("s%d" % i, 0)
             if tier == "thorough":
                 ks = range(1, n + 1)
             else:
-                ks = sorted(set(list(range(1, min(n, 10) + 1)) + list(range(max(1, n - 9), n + 1)) + list(range(1, n + 1, max(1, n // 25)))))
+                # first/last ten, every n-th, and the first and the last request of every distinct allocation site (by call stack)
+                ks = sorted(set(list(range(1, min(n, 10) + 1)) + list(range(max(1, n - 9), n + 1)) + list(range(1, n + 1, max(1, n // 25)))
+                                + [k for k in sitek.get("s%d" % i, []) if 1 <= k <= n][:120]))
             for k in ks:
                 bid = "s%d_k%d" % (i, k)
                 blocks2.append([("G " + bid)] + pool_lines + api_behaviour_block(bid, h, inputs, fault_k=k)[1:])
